@@ -40,6 +40,7 @@ type Engine struct {
 	cs         *ContractSet
 	frames     map[*ssa.Function]*Effects
 	reads      map[*ssa.Function]*Effects
+	rebind     map[string]string // loop-invariant names re-bound to (renamed) locals, for the function being verified
 	guarded    map[string]guardInfo
 	guardedSub map[string]guardInfo // struct-typed guarded fields, by the tag of their sub-object reference
 	funcs      map[string]*ssa.Function
